@@ -33,7 +33,9 @@ from .base import standard_run, Stop
 MACHINE = 'persist'
 NAMES = ['', 'I', 'I0', 'I00', 'a', 'A', 'Ié', 'é', 'Z', 'I.0', 'II', 'zope',
          # wide strings whose first differing characters lie in different 256-code-point blocks (byte-wise and code-point order differ)
-         'I\u5546\u54c1', 'I\u4ea7\u54c1', 'I\U0001d4b3', 'I\uffee']
+         'I\u5546\u54c1', 'I\u4ea7\u54c1', 'I\U0001d4b3', 'I\uffee',
+         # a dot inside the name: ('n.I', 'm') and ('I', 'm.n') are different keys with the same dotted path
+         'n.I', 'n.I0']
 MODS = ['', 'm', 'm.n', 'M', 'mé', 'zope.interface.declarations', 'I', 'm.', 'm\u5546', 'm\u4ea7']
 WMOD = 'zisim_pworld'
 
